@@ -26,7 +26,13 @@ func buildOverlay(harnessRoot string) (map[string][]byte, error) {
 		if err != nil {
 			return err
 		}
-		if info.IsDir() || !strings.HasSuffix(p, ".go") {
+		if info.IsDir() {
+			if strings.HasPrefix(info.Name(), "_") {
+				return filepath.SkipDir
+			}
+			return nil
+		}
+		if !strings.HasSuffix(p, ".go") {
 			return nil
 		}
 		rel, _ := filepath.Rel(harnessRoot, p)
